@@ -461,7 +461,12 @@ void * isa_l_common_init(struct ec_backend_args *args, void *backend_sohandle,
 
     /* validate EC arguments */
     {
-        long long max_symbols = 1LL << desc->w;
+        long long max_symbols;
+        /* w is used as a word size in bytes (w / 8) and as a shift count */
+        if (desc->w < 8 || desc->w > 32) {
+            goto error;
+        }
+        max_symbols = 1LL << desc->w;
         if ((desc->k + desc->m) > max_symbols) {
             goto error;
         }
